@@ -1,10 +1,14 @@
 import AnonCreds.Props.C17
+import AnonCreds.Proofs.CreatePlan
 /-
 C03 — completeness of honest presentations. What is proved here is the algebra every acceptance
 rests on: for each sub-protocol the verifier's recomputation from the honest prover's responses
 equals the value the honest prover hashed (so both sides derive the same challenge), for all
 witnesses, randomness and challenges. The composition (both sides append the same items in the same
 order) is tied to the code by the honest-run correspondence of the harness, not by a theorem.
+The *structural* composition is a theorem: `create_passes_verify_plan` — the proofs map `create` emits
+(model `Create.createProofs`, compared with the real `create` by `cr.proofs`) passes the whole plan stage
+of `verify` (model `Verify.planStage`, compared with the real `verify` by `vf.plan`).
 -/
 namespace AC.C03
 open AC.Sigma
@@ -59,5 +63,45 @@ theorem equality_complete (n c m m' : F) (h : m = m') : n + c * m = n + c * m' :
 example : commitmentRecommit (1:F) (2:F) ((3:F) • (1:F) + (4:F) • (2:F)) (5:F) (6 + 5 * 3) (7 + 5 * 4)
     = (6:F) • (1:F) + (7:F) • (2:F) :=
   commitment_complete (1:F) (2:F) (3:F) (4:F) (6:F) (7:F) (5:F)
+
+/-! ### composition at the plan level: what `create` emits, `verify` pairs and resolves -/
+
+open AC.Verify AC.Create AC.CreatePlan in
+/-- For every honest (credentials, schema) pair — distinct statement ids, a signature credential per
+signature statement and per range statement's `signature_id`, a membership credential per membership
+statement — for which `Presentation::create` returns a presentation, that presentation's proofs map
+passes everything `Presentation::verify` decides before the challenge comparison: every proof is stored
+under its own id, every signature statement finds a signature proof (and its disclosed-claims check,
+assumed here and characterised in C02), every predicate statement finds a proof of its own variant, a range
+statement's reference is a commitment statement with a commitment proof, and every other reference
+resolves to a signature proof whose hidden-message lookup contains the claim index. Holds for any
+number of statements and credentials, in any listing order. -/
+theorem create_passes_verify_plan {F : Type} [DecidableEq F] (enc : ClaimData → F)
+    (types : String → List ClaimType) (inner : String → Inner F)
+    (reported : List (String × List (String × ClaimData)))
+    (creds : List (String × CredI)) (stmts : List CStmt) (ps : List ProofI)
+    (hon : Honest creds stmts)
+    (hdisc : ∀ id d l n, CStmt.sig id d l n ∈ stmts →
+      ∃ rep, reported.lookup id = some rep ∧ checkDisclosed enc ⟨id, d, l, types id⟩ (inner id) rep = true)
+    (hcreate : createProofs creds stmts = some ps) :
+    planStage enc (stmts.map (toV types)) (toPres inner reported ps) = none :=
+  create_plan_complete enc types inner reported creds stmts ps hon hdisc hcreate
+
+/-- `create` keeps the `IndexMap` order "range proofs, signature proofs, other predicates" whatever the
+listing order of the schema (here: range statement listed first) -/
+example : AC.Create.createProofs
+    [("s", .sig [⟨11, none⟩, ⟨12, some 5⟩])]
+    [.range "r" "c" "s" 1 (some 0) (some 10), .simple .commitment "c" "s" 1, .sig "s" ["a"] ["a", "b"] 2]
+    = some [⟨"r", .range, 0, []⟩, ⟨"s", .signature, 2, [0]⟩, ⟨"c", .commitment, 0, []⟩] := by decide
+
+/-- the hypotheses of `create_passes_verify_plan` are satisfiable: that scenario is `Honest` -/
+example : AC.CreatePlan.Honest
+    [("s", .sig [⟨11, none⟩, ⟨12, some 5⟩])]
+    [.range "r" "c" "s" 1 (some 0) (some 10), .simple .commitment "c" "s" 1, .sig "s" ["a"] ["a", "b"] 2] where
+  ids := by decide
+  kinds := by intro k id ref c h; simp at h; obtain ⟨rfl, -⟩ := h; simp
+  sigCred := by intro id d l n h; simp at h; obtain ⟨rfl, -⟩ := h; exact ⟨_, rfl⟩
+  memCred := by intro id ref c h; simp at h
+  rangeCred := by intro id ref sid c lo hi h; simp at h; obtain ⟨-, -, rfl, -⟩ := h; exact ⟨_, rfl⟩
 
 end AC.C03
